@@ -727,7 +727,19 @@ class ComponentState(object):
 
         stopEngine = not self.specification.isMigratable
 
-        if self.state == experiment.model.codes.RUNNING_STATE:
+        engineIsRunning = self.state == experiment.model.codes.RUNNING_STATE
+
+        if engineIsRunning is False and stopEngine:
+            # Tell the engine first: a restart that is being prepared at this very moment either finds the engine
+            # shut down (and does not happen) or has already brought it back to life - then it has to be stopped
+            try:
+                self.engine.shutdown()
+            except AssertionError:
+                self.log.warning("Engine of %s was restarted while I was asked to finish - will stop it" %
+                                 self.specification.identification)
+                engineIsRunning = True
+
+        if engineIsRunning:
             def stop_engine():
                 if stopEngine:
                     self.engine.kill()
@@ -756,8 +768,6 @@ class ComponentState(object):
             stop_engine()
         else:
             self.controllerState = finalState
-            if stopEngine:
-                self.engine.shutdown()
 
     def suspend(self):
         '''Puts the receiver in the SUSPENDED state unless it has been asked to finish. Returns True on success'''
